@@ -704,7 +704,7 @@ func c01FieldSweep(t *testing.T) {
 func TestC01(t *testing.T) {
 	begin(t, "C01")
 	hx.Assume("layouts and links are written and signed by the harness (reference canonical JSON / PAE + crypto/*); ground truth = for every supplied key some signature entry verifies over the file's signed bytes, key ids ignored (weakest reading, so must-reject is sound)")
-	hx.Assume("DSSE alterations are file-level (Envelope has no exported fields); in-memory alteration is exercised for the legacy wrapper")
+	hx.Assume("DSSE alterations are file-level, plus one in-memory route: the payload value obtained from GetPayload is changed below its top level in place and set again without signing (Envelope has no exported fields); the legacy wrapper is altered in memory directly")
 	ck := hx.Check[c01Case]{
 		Property: "C01", Part: "layouts",
 		Rule:  "accepting generated worlds (1-3 steps, 0-2 logging inspections, 1-3 layout signers from RSA/ECDSA/Ed25519 pool keys, both wrappers, both entry points) x one alteration of signed content (JSON-tree mutator over every field, DSSE payload bytes, in-memory object), of the signature list (drop/flip/swap/retarget/empty/junk-first) or of the supplied key set (empty/add non-signer/stranger/swapped public material/subset), plus neutral re-serialisations; plus a sweep of every (field, mutation kind) of a fixed layout; non-trivial = alteration turning ground truth to 'not ok', or a neutral re-serialisation; distinct by case JSON",
